@@ -46,7 +46,23 @@ func (g *Gen) header() string {
 	}
 	// deterministic order
 	sortStrings(names)
-	b.WriteString(g.eng.prelude.textFor(names))
+	text := g.eng.prelude.textFor(names)
+	// option opaque f g ...: the unit treats these defined prelude functions as uninterpreted (a sound weakening that
+	// keeps large definitions, e.g. modular reductions, out of obligations that only need them as names)
+	for _, fn := range strings.Fields(g.ct.Options["opaque"]) {
+		sig, ok := g.eng.prelude.sigs[fn]
+		if !ok {
+			continue
+		}
+		lines := strings.Split(text, "\n")
+		for i, l := range lines {
+			if strings.HasPrefix(l, "(define-fun "+fn+" ") {
+				lines[i] = fmt.Sprintf("(declare-fun %s (%s) %s)", fn, strings.Join(sig.args, " "), sig.ret)
+			}
+		}
+		text = strings.Join(lines, "\n")
+	}
+	b.WriteString(text)
 	b.WriteString("\n")
 	return b.String()
 }
